@@ -199,3 +199,35 @@ func scaled(s string, fd int) string {
 	}
 	return out
 }
+
+// DefaultOfType returns the default a type carries through its typedef chain (nearest typedef first).
+func DefaultOfType(mods []*Mod, m *Mod, t *TypeSpec) *string {
+	byName := map[string]*Mod{}
+	for _, x := range mods {
+		byName[x.Name] = x
+	}
+	for depth := 0; depth < 20 && t != nil; depth++ {
+		if vt.Builtin(t.Name, t.FD) != nil || t.Name == "enumeration" || t.Name == "identityref" || t.Name == "union" || t.Name == "leafref" {
+			return nil
+		}
+		pfx, name := localName(t.Name)
+		tm := modByPrefix(byName, m, pfx)
+		if tm == nil {
+			return nil
+		}
+		var td *Typedef
+		for _, x := range tm.Typedefs {
+			if x.Name == name {
+				td = x
+			}
+		}
+		if td == nil {
+			return nil
+		}
+		if td.Default != nil {
+			return td.Default
+		}
+		m, t = tm, td.Type
+	}
+	return nil
+}
